@@ -2,32 +2,35 @@
 """tools/seedall.py [seed-id ...] : run the quick (and if missed, thorough) check of the broken property against every kept
 seeded change (scratch copy of /repo with the patch applied) and record the outcome in seeded/<id>/meta.json."""
 import json, os, subprocess, sys, glob, shutil, tempfile
+import concurrent.futures as cf
 V = "/verif"
 TIERS = ("quick", "thorough") if "--thorough" in sys.argv else ("quick",)
 sys.argv = [a for a in sys.argv if a != "--thorough"]
+JOBS = 1
+for a in list(sys.argv):
+    if a.startswith("--jobs="):
+        JOBS = int(a.split("=")[1])
+        sys.argv.remove(a)
 ids = sys.argv[1:] or sorted(os.path.basename(d) for d in glob.glob(V + "/seeded/*") if os.path.isdir(d))
 claimed = {c["property_id"] for c in json.load(open(V + "/MANIFEST.json"))["checks"]}
-rows = []
-for sid in ids:
+def one(sid):
     d = os.path.join(V, "seeded", sid)
     meta = json.load(open(d + "/meta.json"))
     prop = meta["breaks_property"]
     if prop not in claimed and not os.path.exists(V + "/mbt/props/%s.py" % prop.lower()):
-        print(sid, "SKIP (no check for %s yet)" % prop)
-        continue
+        return sid + " SKIP (no check for %s yet)" % prop
     res = {}
     for tier in TIERS:
         scratch = tempfile.mkdtemp(prefix="seedall_")
         shutil.copytree("/repo/geomdl", scratch + "/repo/geomdl")
-        p = subprocess.run(["patch", "-p1", "-s", "-i", d + "/patch.diff"], cwd=scratch + "/repo")
+        p = subprocess.run(["patch", "-p1", "-s", "-i", d + "/patch.diff"], cwd=scratch + "/repo", capture_output=True, text=True)
         if p.returncode != 0:
             res[tier] = "patch failed"
             shutil.rmtree(scratch)
             break
-        env = dict(os.environ, VERIF_REPO=scratch + "/repo", VERIF_NO_EVIDENCE="1")
+        env = dict(os.environ, VERIF_REPO=scratch + "/repo", VERIF_NO_EVIDENCE="1", VERIF_REPLAY_DIR=scratch + "/replays")
         r = subprocess.run([V + "/check", prop, "--tier", tier], env=env, capture_output=True, text=True)
         shutil.rmtree(scratch)
-        shutil.rmtree(V + "/replays", ignore_errors=True)
         sites = sorted({l.split("call_site=")[1].split(" ")[0] for l in r.stdout.splitlines() if "call_site=" in l})
         res[tier] = {"exit": r.returncode, "violation_sites": sites[:6]}
         if r.returncode == 1:
@@ -35,4 +38,9 @@ for sid in ids:
     meta["detected_by"] = res
     json.dump(meta, open(d + "/meta.json", "w"), indent=1)
     caught = next((t for t in ("quick", "thorough") if isinstance(res.get(t), dict) and res[t]["exit"] == 1), None)
-    print(sid, prop, "CAUGHT by %s" % caught if caught else "MISSED %s" % res)
+    return "%s %s %s" % (sid, prop, "CAUGHT by %s" % caught if caught else "MISSED %s" % res)
+
+
+with cf.ThreadPoolExecutor(max_workers=JOBS) as ex:
+    for line in ex.map(one, ids):
+        print(line, flush=True)
